@@ -1,6 +1,210 @@
-"""Rewrite rules R1..R6 (C18 unit only): std string call forms -> trusted wrappers.  See DESIGN §4.3."""
+"""Rewrite rules R1..R6 (C18 unit only): std string call forms -> trusted wrappers.  See DESIGN §4.3.
+
+Purely syntactic, applied to the token stream of one function body; every application is one tagged
+Edit (counted in the evidence).  The wrappers (verus/modpath_pre.rs) are `external_body` functions whose
+bodies are exactly the std calls the rule replaces, so the rewritten text computes what the source
+computes provided the wrapper contracts hold (TRUSTED, listed under assumptions).
+
+  R1  for PAT in E.split(C) {..}                -> for PAT in vf_split(E, C) {..}
+  R2  V.join(L)                                  -> vf_join(&V, L)
+  R3  format!("lit{}lit{}..", A, B)              -> vf_concat2/3(pieces and args in order)   (R3=kinds: str|String per arg)
+  R4  E.starts_with('c') / E.starts_with("lit")  -> vf_starts_with_char(E, 'c') / vf_starts_with_str(E, "lit")
+  R5  E.rfind(C).and_then(|i| E.get(..i))        -> vf_before_last(&E, C)
+  R6  E.to_string()                              -> vf_to_string(E)
+"""
+import re
+
 from rsx import Edit, RsxError, match_close
 
 
+def _receiver_start(toks, dot):
+    """index of the first token of the postfix-chain receiver that ends right before toks[dot] ('.')"""
+    i = dot - 1
+    if toks[i].kind not in ('ident', 'num'):
+        raise RsxError('unsupported construct: receiver of a rewritten std call is not a simple path')
+    while i - 2 >= 0 and toks[i - 1].text == '.' and toks[i - 2].kind in ('ident', 'num'):
+        i -= 2
+    return i
+
+
+def _text(src, a, b):
+    return src.text[src.toks[a].start:src.toks[b].end]
+
+
+def _args(src, lo, hi):
+    """split tokens lo..hi (exclusive of the parens) at top-level commas -> [(a,b)]"""
+    toks = src.toks
+    out = []
+    start = lo
+    i = lo
+    while i <= hi:
+        t = toks[i].text
+        if t in ('(', '[', '{'):
+            i = match_close(toks, i)
+        elif t == ',':
+            if i > start:
+                out.append((start, i - 1))
+            start = i + 1
+        i += 1
+    if start <= hi:
+        out.append((start, hi))
+    return out
+
+
+class Rewriter:
+    def __init__(self, src, rules, stats):
+        self.src = src
+        self.toks = src.toks
+        self.rules = {}
+        for r in rules:
+            if '=' in r:
+                k, v = r.split('=', 1)
+                self.rules[k] = v.split(',')
+            else:
+                self.rules[r] = True
+        self.stats = stats
+
+    def on(self, r):
+        return r in self.rules
+
+    def rewrite(self, lo, hi):
+        """text of tokens lo..hi with the enabled rules applied (recursively)"""
+        toks = self.toks
+        out = []
+        pos = toks[lo].start
+        i = lo
+        while i <= hi:
+            m = self.match_at(i, hi)
+            if m:
+                a, b, text = m
+                out.append(self.src.text[pos:toks[a].start])
+                out.append(text)
+                pos = toks[b].end
+                i = b + 1
+                continue
+            i += 1
+        out.append(self.src.text[pos:toks[hi].end])
+        return ''.join(out)
+
+    def match_at(self, i, hi):
+        """a rule application that STARTS at token i: (first_tok, last_tok, replacement) or None"""
+        toks = self.toks
+        t = toks[i]
+        # R3 format!( "..", args )
+        if self.on('R3') and t.text == 'format' and i + 2 <= hi and toks[i + 1].text == '!' and toks[i + 2].text == '(':
+            close = match_close(toks, i + 2)
+            args = _args(self.src, i + 3, close - 1)
+            if not args or toks[args[0][0]].kind != 'str' or args[0][0] != args[0][1]:
+                raise RsxError('unsupported construct: format! without a literal format string')
+            fmt = toks[args[0][0]].text
+            if not (fmt.startswith('"') and fmt.endswith('"')) or '\\' in fmt or '{{' in fmt:
+                raise RsxError('unsupported construct: format string %s' % fmt)
+            pieces = fmt[1:-1].split('{}')
+            if any('{' in p or '}' in p for p in pieces):
+                raise RsxError('unsupported construct: format string %s (only {} placeholders)' % fmt)
+            kinds = self.rules['R3'] if isinstance(self.rules['R3'], list) else []
+            rest = args[1:]
+            if len(pieces) - 1 != len(rest) or len(kinds) != len(rest):
+                raise RsxError('anchor lost: format! arity changed (R3 kinds %s)' % kinds)
+            parts = []
+            for k, p in enumerate(pieces):
+                if p:
+                    parts.append('"%s"' % p)
+                if k < len(rest):
+                    a = self.rewrite(rest[k][0], rest[k][1])
+                    parts.append(a if kinds[k] == 'str' else '%s.as_str()' % a)
+            if len(parts) not in (2, 3):
+                raise RsxError('unsupported construct: format! with %d pieces' % len(parts))
+            self.stats['R3'] += 1
+            return (i, close, 'vf_concat%d(%s)' % (len(parts), ', '.join(parts)))
+        # receiver-based rules: look for `<recv> . method (` where recv starts at i
+        if t.kind in ('ident',) and (i == 0 or toks[i - 1].text not in ('.', '::')):
+            j = i
+            while j + 2 <= hi and toks[j + 1].text == '.' and toks[j + 2].kind in ('ident', 'num'):
+                # candidate method at j+2 if followed by '('
+                if j + 3 <= hi and toks[j + 3].text == '(' and toks[j + 2].kind == 'ident':
+                    meth = toks[j + 2].text
+                    recv = _text(self.src, i, j)
+                    close = match_close(toks, j + 3)
+                    if meth == 'join' and self.on('R2') and i == j:
+                        args = _args(self.src, j + 4, close - 1)
+                        if len(args) == 1:
+                            self.stats['R2'] += 1
+                            return (i, close, 'vf_join(&%s, %s)' % (recv, self.rewrite(*args[0])))
+                    if meth == 'starts_with' and self.on('R4'):
+                        args = _args(self.src, j + 4, close - 1)
+                        if len(args) == 1 and args[0][0] == args[0][1] and toks[args[0][0]].kind in ('char', 'str'):
+                            lit = toks[args[0][0]]
+                            self.stats['R4'] += 1
+                            fn = 'vf_starts_with_char' if lit.kind == 'char' else 'vf_starts_with_str'
+                            return (i, close, '%s(%s, %s)' % (fn, recv, lit.text))
+                        raise RsxError('unsupported construct: starts_with with a non-literal pattern')
+                    if meth == 'to_string' and self.on('R6') and close == j + 4:
+                        self.stats['R6'] += 1
+                        return (i, close, 'vf_to_string(%s)' % recv)
+                    if meth == 'rfind' and self.on('R5'):
+                        # E.rfind(C).and_then(|I| E.get(..I))
+                        cargs = _args(self.src, j + 4, close - 1)
+                        k = close
+                        if (len(cargs) == 1 and k + 3 <= hi and toks[k + 1].text == '.' and toks[k + 2].text == 'and_then'
+                                and toks[k + 3].text == '('):
+                            c2 = match_close(toks, k + 3)
+                            inner = [x.text for x in toks[k + 4:c2]]
+                            rt = [x.text for x in toks[i:j + 1]]
+                            if (len(inner) >= 4 and inner[0] == '|' and inner[2] == '|' and inner[3:3 + len(rt)] == rt
+                                    and inner[3 + len(rt):] == ['.', 'get', '(', '.', '.', inner[1], ')']):
+                                self.stats['R5'] += 1
+                                return (i, c2, 'vf_before_last(&%s, %s)' % (recv, _text(self.src, *cargs[0])))
+                        raise RsxError('unsupported construct: rfind not in the form E.rfind(C).and_then(|i| E.get(..i))')
+                    break
+                j += 2
+        return None
+
+
 def apply_rules(src, fn, rules, edits, stats):
-    raise RsxError('rules not implemented yet')
+    toks = src.toks
+    rw = Rewriter(src, rules, stats)
+    # R1: for-loop headers
+    skip = []
+    if rw.on('R1'):
+        for L in fn.loops:
+            if L.kind != 'for':
+                continue
+            k = L.kw + 1
+            while toks[k].text != 'in':
+                k += 1
+            lo, hi = k + 1, L.body_open - 1
+            # E . split ( C )  must be the whole iterated expression
+            if toks[hi].text == ')':
+                p = hi
+                depth = 0
+                while p >= lo:
+                    if toks[p].text == ')':
+                        depth += 1
+                    elif toks[p].text == '(':
+                        depth -= 1
+                        if depth == 0:
+                            break
+                    p -= 1
+                if p - 2 >= lo and toks[p - 1].text == 'split' and toks[p - 2].text == '.':
+                    recv = _text(src, lo, p - 3)
+                    arg = _text(src, p + 1, hi - 1)
+                    if toks[p + 1].kind != 'char':
+                        raise RsxError('unsupported construct: split with a non-char pattern')
+                    edits.append(Edit(toks[lo].start, toks[hi].end, 'vf_split(%s, %s)' % (recv, arg), 'R1'))
+                    stats['R1'] += 1
+                    skip.append((lo, hi))
+    # the remaining rules: scan the body left to right
+    i = fn.body_open + 1
+    hi = fn.body_close - 1
+    while i <= hi:
+        if any(a <= i <= b for a, b in skip):
+            i += 1
+            continue
+        m = rw.match_at(i, hi)
+        if m:
+            a, b, text = m
+            edits.append(Edit(toks[a].start, toks[b].end, text, 'R'))
+            i = b + 1
+            continue
+        i += 1
